@@ -34,7 +34,7 @@ const (
 	opTimeout    = 25 * time.Second // the client's own deadline ("gave up"); expiry alone is never a verdict
 	statusWait   = 25 * time.Second // generous deadline for /status after a journalled request
 	settleMax    = 30 * time.Second // generous settle period for persistent-state oracles
-	maxRestarts  = 6
+	maxRestarts  = 10
 	leakEveryOps = 60 // fuzz requests between two leak checks (batches may end a little later)
 )
 
